@@ -100,11 +100,10 @@ Proof.
   repeat (constructor; [cbn; intuition discriminate|]). constructor.
 Qed.
 
-(* the RecoverHandler inside the timeout middleware answers with the status of the source; it is
-   a final status that passes checkWriteHeaderCode (the recovery's own WriteHeader never panics)
-   and can be told from both timeout replies *)
-Lemma recover_status_is_source :
-  recover_code = recover_status /\
-  bad_code recover_status = false /\ is_info recover_status = false /\
-  recover_status <> code_cancel /\ recover_status <> code_deadline.
-Proof. repeat split; try reflexivity; discriminate. Qed.
+(* the RecoverHandler's reply as regenerated from the tree (today: WriteHeader 500) is a reply the
+   theorems of RecoverProofs.v / Props.v apply to: no panic, no context check, no invalid status;
+   and it can be told from both timeout replies *)
+Lemma recover_reply_is_safe :
+  safe_reply recover_reply = true /\
+  ~ In (AWriteHeader code_cancel) recover_reply /\ ~ In (AWriteHeader code_deadline) recover_reply.
+Proof. vm_compute. repeat split; intuition discriminate. Qed.
